@@ -188,6 +188,8 @@ def judge_refusal(what, call, site):
 
 def replay_case(case):
     k = case["kind"]
+    if k == "threads":
+        return replay_threads(case)
     if k == "set":
         cfg = [(c[0], c[1], c[2], _unj(c[3])) for c in case["cfgdata"]]
         return judge_set(cfg, case["layers"], case["txn"], case["site"], parse=case.get("parse", True))[1]
@@ -332,6 +334,55 @@ def reps_by_type():
     return reps
 
 
+def thread_ops():
+    r = reps_by_type()
+    idx = sorted(r.values())
+    ks = [DB[i] for i in idx[:6]]
+    val = lambda t: (boundary_values(t, False) or [L.nominal(t)])[-1]  # noqa: E731
+    A = [(n if j % 2 else k, val(t)) for j, (n, (k, t)) in enumerate(ks[:3])]
+    B = [(k if j % 2 else n, val(t)) for j, (n, (k, t)) in enumerate(ks[3:6])]
+    return {
+        "set_a": lambda: UBXMessage.config_set(1, 0, A).serialize().hex(),
+        "set_b": lambda: UBXMessage.config_set(7, 1, B).serialize().hex(),
+        "del_a": lambda: UBXMessage.config_del(2, 0, [k for k, _ in A]).serialize().hex(),
+        "poll_b": lambda: UBXMessage.config_poll(0, 3, [k for k, _ in B]).serialize().hex(),
+    }
+
+
+def explore_threads(names, first, acc):
+    """Two helper calls as real threads under the cooperative scheduler (line events inside pyubx2 are the
+    scheduling points), every schedule with at most one preemption: each call must return what it returns alone."""
+    from mc import threads
+    ops = thread_ops()
+    fns = [ops[n] for n in names]
+    want = [("ok", f()) for f in fns]
+
+    def run(ch):
+        return threads.Scheduler(fns, ch, 1).run()
+
+    def on_exec(ch, res):
+        acc.evaluations += 1
+        for i, (got, w) in enumerate(zip(res, want)):
+            if got != w:
+                acc.violation(f"helper_result_differs_when_another_helper_runs_concurrently|{names[i]}|with={names[1 - i]}",
+                              {"kind": "threads", "program": list(names), "first": first, "choices": list(ch.choices)}, f"{got!r:.120} vs alone {w!r:.120}")
+
+    st = engine.explore(run, bound=1, merge=False, on_exec=on_exec, root_prefix=[first])
+    acc.transitions += st["points"]
+    acc.outcomes[("threads", "+".join(names), "complete" if not st["capped"] else "capped")] += 1
+    return st
+
+
+def replay_threads(case):
+    from mc import threads
+    ops = thread_ops()
+    fns = [ops[n] for n in case["program"]]
+    want = [("ok", f()) for f in fns]
+    res = threads.Scheduler(fns, engine.Chooser(case["choices"], None), 1).run()
+    return [(f"helper_result_differs_when_another_helper_runs_concurrently|{case['program'][i]}|with={case['program'][1 - i]}", f"{g!r:.120}")
+            for i, (g, w) in enumerate(zip(res, want)) if g != w]
+
+
 def eval_block(block, acc):
     kind = block[0]
     quick = block[-1]
@@ -467,6 +518,8 @@ def eval_block(block, acc):
             acc.evaluations += 1
             for k2, detail in out:
                 acc.violation(k2, {"kind": "static"}, detail)
+    elif kind == "threads":
+        explore_threads(block[1], block[2], acc)
     elif kind == "tuples":
         idx = sorted(reps.values())
         first = block[1]
@@ -511,6 +564,10 @@ def run_tier(tier, t0):
     blocks = [("keys", idx[i::64], q) for i in range(64)]
     blocks += [("lists", q), ("static", q)]
     blocks += [("tuples", i, q) for i in sorted(reps_by_type().values())]
+    import itertools
+    for a, b in itertools.combinations_with_replacement(("set_a", "set_b", "del_a", "poll_b"), 2):
+        for first in (0, 1):
+            blocks.append(("threads", [a, b], first))
     acc = engine.sweep(blocks, eval_block)
     engine.finish(
         PROP, tier, acc, t0, replay_case,
@@ -521,7 +578,7 @@ def run_tier(tier, t0):
             "all ordered pairs" + (" and a third of the triples" if q else " and triples") + " over one key per type; layers 0..255 x transaction; position boundary values; unknown IDs for size codes 1..5 in each position of a 3-list, and every documented key's group/item under each other size code; "
             "produced payloads compared with the reference codec and re-parsed as CFG-VALSET and as CFG-VALGET response. states = keys covered; distinct_nontrivial = (type, addressing, verdict) classes"
         ),
-        assumptions=["storage widths by size code {1:1,2:1,3:2,4:4,5:8}; undocumented IDs with bit 31 clear (O8); aliases resolve to the first database name (O7)", "out-of-range values may be refused by any exception (the helpers are static, outside the constructor's translation)"],
+        assumptions=["storage widths by size code {1:1,2:1,3:2,4:4,5:8}; undocumented IDs with bit 31 clear (O8); aliases resolve to the first database name (O7)", "out-of-range values may be refused by any exception (the helpers are static, outside the constructor's translation)", "lists naming a key more than once are covered (one item per entry, in order)", "thread ring: all 10 unordered pairs of 4 helper calls (config_set x2, config_del, config_poll) as two real threads under the cooperative line-event scheduler, every schedule with <= 1 preemption; each call must return what it returns alone"],
         vacuity=[(f"all {len(DB)} keys covered", len(acc.states) == len(DB)), ("refusals of bad values observed", any(k[1] == "bad" and k[2] == "refused" for k in acc.outcomes))],
         extra_cov={"keys": len(DB), "unknown_ids": len(unknown_ids())},
     )
